@@ -387,7 +387,9 @@ func sortStrings(s []string) {
 	}
 }
 
-func parseAuthzPublic(rec *httptest.ResponseRecorder, out *world.AuthzOut) { world.ParseAuthz(rec, out) }
+func parseAuthzPublic(rec *httptest.ResponseRecorder, out *world.AuthzOut) {
+	world.ParseAuthz(rec, out)
+}
 
 // ---------------------------------------------------------------------------
 // taint: nothing handed to storage is a usable secret in cleartext
